@@ -716,5 +716,68 @@ fn listenerless_subtree(ctx: &mut Ctx) {
 			}
 		}
 	}
+	// twin builders: a spatial track that neither attenuates nor pans is a plain track - also in what its own volume does when
+	// it is fixed, linked to a live modulator, or linked to something that does not exist (a removed modulator; a listener
+	// distance on a track that has no spatial ancestor keeps the fallback), from the first frame on
+	for link in 0..4usize {
+		for ibs in [1usize, 4] {
+			ctx.evals += 1;
+			ctx.traces += 1;
+			let render = |spatial: bool| -> Vec<(f32, f32)> {
+				use kira::modulator::tweener::TweenerBuilder;
+				let mut m = rig::manager(SR, ibs, rig::caps(4), MainTrackBuilder::new());
+				let a = m.add_listener(glam::Vec3::ZERO, glam::Quat::IDENTITY).expect("listener");
+				let gone = m.add_modulator(TweenerBuilder { initial_value: 0.25 }).expect("tweener");
+				let gone_id = gone.id();
+				drop(gone);
+				let live = m.add_modulator(TweenerBuilder { initial_value: 0.5 }).expect("tweener");
+				let mut sink = vec![];
+				for _ in 0..2 {
+					rig::render_stereo(&mut m, 4, &mut sink);
+				}
+				let mapping = kira::Mapping { input_range: (0.0, 1.0), output_range: (kira::Decibels(-20.0), kira::Decibels(0.0)), easing: kira::Easing::Linear };
+				let v: kira::Value<kira::Decibels> = match link {
+					0 => kira::Value::Fixed(kira::Decibels(-6.0)),
+					1 => kira::Value::FromModulator { id: live.id(), mapping },
+					2 => kira::Value::FromModulator { id: gone_id, mapping },
+					_ => kira::Value::FromListenerDistance(kira::Mapping { input_range: (0.0, 20.0), output_range: (kira::Decibels(-12.0), kira::Decibels(-20.0)), easing: kira::Easing::Linear }),
+				};
+				let mut keep: Vec<Box<dyn std::any::Any>> = vec![];
+				if spatial {
+					let mut t = m.add_spatial_sub_track(&a, glam::Vec3::new(0.0, 0.0, -2.0), SpatialTrackBuilder::new().attenuation_function(None).spatialization_strength(0.0).volume(v)).expect("track");
+					keep.push(Box::new(t.play(ProbeSoundData::new((0.5, 0.0), (0.5, 0.0))).expect("play")));
+					keep.push(Box::new(t));
+				} else {
+					let mut t = m.add_sub_track(TrackBuilder::new().volume(v)).expect("track");
+					keep.push(Box::new(t.play(ProbeSoundData::new((0.5, 0.0), (0.5, 0.0))).expect("play")));
+					keep.push(Box::new(t));
+				}
+				let mut out = vec![];
+				for n in [3usize, 4, 5] {
+					rig::render_stereo(&mut m, n, &mut out);
+				}
+				drop((keep, live, a));
+				out
+			};
+			let (plain, spatial) = (render(false), render(true));
+			const LINKS: [&str; 4] = ["Fixed(-6 dB)", "FromModulator(live tweener at 0.5, mapped 0..1 -> -20..0 dB)", "FromModulator(a tweener that was removed)", "FromListenerDistance (distance 2 for the spatial twin: the plain twin is compared from the mapping's value at 2 only when it has a listener - skipped)"];
+			// (the listener-distance link means something only for the spatial twin: there the law is the mapping's value)
+			let bad = if link == 3 {
+				let want = 0.5 * 10f64.powf((-12.0 - 8.0 * 0.1) / 20.0);
+				spatial.iter().enumerate().skip(ibs).find(|(_, f)| (f.0 as f64 - want).abs() > 1e-5).map(|(i, f)| format!("frame {} = {:?}, expected {}", i, f, want))
+			} else {
+				(0..plain.len()).find(|&i| (plain[i].0 - spatial[i].0).abs() > 1e-6 || (plain[i].1 - spatial[i].1).abs() > 1e-6).map(|i| format!("frame {}: plain track {:?}, spatial track {:?}", i, plain[i], spatial[i]))
+			};
+			if let Some(b) = bad {
+				ctx.fail(
+					"a spatial track that neither attenuates nor pans does not pass what the same plain track passes (its own volume setting behaves differently) :: twin builders",
+					format!("track volume {}; DC 0.5 on the track; internal buffer {}; callbacks of 3, 4, 5 frames: {}; plain {:?}; spatial {:?}", LINKS[link], ibs, b, plain, spatial),
+				);
+			} else if plain.iter().any(|f| f.0 != 0.0) {
+				ctx.nontrivial_extra += 1;
+			}
+			ctx.state(hash64(&("twin builders", link, ibs)));
+		}
+	}
 	ctx.outcome(hash64(&"listenerless"));
 }
